@@ -1,12 +1,12 @@
 SPECIFICATION Spec
 CONSTANTS
-  N = 3
+  N = 4
   Facts = {p}
   MaxOut = 2
-  Runs = 3
+  Runs = 2
   FirstVisitCounts = TRUE
-  WaitForVisited = FALSE
+  WaitForVisited = TRUE
   RootsAreEntries = TRUE
+CONSTRAINT NoKill
 INVARIANTS SweepBound FixedPoint Stable AllVisited
-PROPERTY Terminates
 CHECK_DEADLOCK FALSE
